@@ -192,6 +192,26 @@ def special_events():
             yield e
 
 
+def history_events():
+    """s(text, ret) is a function of its arguments, whatever was built before: the same text with return annotations that compare EQUAL but are
+    different objects (1, True, 1.0), built one after the other"""
+    from sigtools import support
+    for ti, text in enumerate(['a', 'a, *, b=1', '']):
+        seq = [1, True, 1.0, 0, False, 0.0, True, 1]
+        ok, why = True, ''
+        for r in seq:
+            try:
+                got = support.s(text, r).return_annotation
+            except Exception as ex:  # noqa
+                ok, why = False, type(ex).__name__
+                break
+            if type(got) is not type(r) or got != r:
+                ok, why = False, 'Stale'
+                break
+        yield {'tid': 'history/%d' % ti, 'op': 'roundtrip', 'how': 's', 'want': [], 'got': [], 'retwant': 0, 'retgot': 0, 'upto_kwo_order': False,
+               'tag': 'ok' if ok else 'raise:' + why, 'case': {'ps0': [], 'ps': [], 'text': text, 'opts': {}, 'how': 'history'}}
+
+
 def value_text_events():
     """func_from_sig on real signatures whose default VALUES print with a comma or with ' -> ' (known finding: the text is split naively)"""
     import inspect
@@ -226,6 +246,8 @@ def gen_for(U, n, seed):
             for e in special_events():
                 yield e
             for e in value_text_events():
+                yield e
+            for e in history_events():
                 yield e
     return gen
 
